@@ -24,6 +24,21 @@ def negate_if(line):
         i = cond.rindex(';')
         return head + cond[:i+1] + " !(" + cond[i+1:].strip() + ")" + tail
     return head + "!(" + cond + ")" + tail
+RELS = [(" <= ", " < "), (" < ", " <= "), (" >= ", " > "), (" > ", " >= ")]
+def relop(line):
+    """off-by-one: the first ordering comparison of the line gets its boundary moved"""
+    t = line.strip()
+    if t.startswith("//") or "for " not in t and "if " not in t and "return " not in t and " = " not in t:
+        return None
+    best = None
+    for a, b in RELS:
+        i = line.find(a)
+        if i >= 0 and (best is None or i < best[0]):
+            best = (i, a, b)
+    if not best or '"' in line[:best[0]] and line[:best[0]].count('"') % 2 == 1:
+        return None
+    i, a, b = best
+    return line[:i] + b + line[i+len(a):]
 MODE = "del"
 def funcs_by_file():
     """start line of every function under contract and the properties whose evidence lists it"""
@@ -58,7 +73,7 @@ def worker(args):
         shutil.copytree("/repo", cp, ignore=shutil.ignore_patterns(".git"))
         p = os.path.join(cp, f)
         L = open(p).read().split("\n")
-        L[lineno] = "" if MODE == "del" else negate_if(L[lineno])
+        L[lineno] = "" if MODE == "del" else (negate_if(L[lineno]) if MODE == "negif" else relop(L[lineno]))
         open(p, "w").write("\n".join(L))
         b = subprocess.run(["go", "build", "-o", os.devnull, "./" + os.path.dirname(f) + "/"], cwd=cp, env=ENV, capture_output=True, text=True)
         if b.returncode != 0:
@@ -88,6 +103,8 @@ def main():
             if MODE == "del" and CALL.match(l) and not SKIP.match(l) and not l.strip().startswith("//"):
                 jobs.append((len(jobs), f, i, l, props))
             if MODE == "negif" and negate_if(l) and not l.strip().startswith("//"):
+                jobs.append((len(jobs), f, i, l, props))
+            if MODE == "relop" and relop(l):
                 jobs.append((len(jobs), f, i, l, props))
     print(len(jobs), "candidate statements", flush=True)
     with ThreadPoolExecutor(max_workers=j) as ex:
